@@ -62,7 +62,9 @@ type Payload struct {
 	N      int
 	Lvl    Level
 	Mode   Mode
+	First  Circle
 	S      Shape ` + "`json:\"shape\"`" + `
+	LL     [][]int
 	Ls     []Level
 	P      Pair
 	M      map[string]int
@@ -71,6 +73,12 @@ type Payload struct {
 	hidden int
 	Skip   int ` + "`json:\"-\"`" + `
 }
+
+`
+
+// the analysed file declares the table only: the types of its jsonb column live in another file of the
+// package, so that they are not tables themselves (each table column gets its own validator declarations)
+const c04Table = `package p
 
 type Doc struct {
 	Id int64
@@ -809,7 +817,7 @@ func Check() {
 	if !defined {
 		return
 	}
-	v := Payload{Name: "n", N: 2, Lvl: High, Mode: On, S: Circle{R: 1, L: Low}, hidden: 3, Skip: 4}
+	v := Payload{Name: "n", N: 2, Lvl: High, Mode: On, First: Circle{R: 2, L: High}, S: Circle{R: 1, L: Low}, hidden: 3, Skip: 4}
 	switch vfChoice("focus", 6) {
 	case 0:
 		v.Name = vfString("name", 0, 2, "alnum")
@@ -839,6 +847,9 @@ func Check() {
 			v.Ls = []Level{Low, High}
 		}
 		v.P = Pair{int(vfInt("p0", 0, 9)), 5}
+		if vfBool("ll") {
+			v.LL = [][]int{{1}, nil, {}}
+		}
 	case 3:
 		switch vfChoice("m", 3) {
 		case 1:
@@ -895,7 +906,7 @@ func c04Tier(check string) string {
 
 // HC04_exec: the CHECK of a jsonb column admits what Go emits and rejects foreign shapes (evaluated).
 func HC04_exec() {
-	pkg := vfTypeCheck("example.com/mod/p", []string{"/m/p/p.go"}, []string{c04Decls}, nil)
+	pkg := vfTypeCheck("example.com/mod/p", []string{"/m/p/p.go", "/m/p/types.go"}, []string{c04Table, c04Decls}, nil)
 	var sqlText, goText string
 	panicked, _, msg := vfCatch(func() {
 		ana := an.NewAnalysisFromFile(pkg, "/m/p/p.go")
@@ -908,8 +919,8 @@ func HC04_exec() {
 		vfStop()
 	}
 	text := "package p\n\nconst sqlText = " + fmt.Sprintf("%q", sqlText) + "\n"
-	errs := vfExec("example.com/mod/p", []string{"/m/p/p.go", "/m/p/gen.go", "/m/p/sql.go", "/m/p/eval.go", "/m/p/check.go"},
-		[]string{c04Decls, execAddImports(goText, "time"), text, c04Evaluator, c04Tier(c04Check)}, nil, "Check")
+	errs := vfExec("example.com/mod/p", []string{"/m/p/types.go", "/m/p/p.go", "/m/p/gen.go", "/m/p/sql.go", "/m/p/eval.go", "/m/p/check.go"},
+		[]string{c04Decls, c04Table, execAddImports(goText, "time"), text, c04Evaluator, c04Tier(c04Check)}, nil, "Check")
 	if len(errs) > 0 {
 		vfObserve("error", errs[0])
 	}
